@@ -27,10 +27,13 @@
    error) is chosen by the schedule.  The mutex is a parameter: [with_mutex =
    false] is the code with the two sendMutex lines deleted.
 
-   Send does not close or poison the connection when a Write fails; Router.Send
-   (router.go:347-365) then opens a NEW connection for ITS message and leaves
-   the old one registered -- and first in line for every other goroutine.  So in
-   the model, as in the code, sending goes on after a failure.
+   [fix_n1 = false] is the code as it is: Send does not close or poison the
+   connection when a Write fails; Router.Send (router.go) then opens a NEW
+   connection for ITS message and leaves the old one registered -- and first in
+   line for every other goroutine.  So sending goes on after a failure (finding
+   C03-N1).  [fix_n1 = true] is the code with proposed_fixes/C03-N1.diff: Send
+   closes the connection when sendRaw returns an error ([broken]); every later
+   Write on it fails without a byte going out.
 
    Threads are a total map nat -> thread; a thread with nothing to send never
    moves, so "k goroutines" is any map that is empty from k on.
@@ -63,6 +66,7 @@ Section Conc.
     holder : option nat;            (* sendMutex: who holds it *)
     wire : bytes;                   (* everything written to the connection so far *)
     tx : N;                         (* the connection's Tx counter *)
+    broken : bool;                  (* fix_n1 only: the connection was closed by a failed Send *)
     acq : list (nat * V);           (* ghost: Send calls in the order they got past Lock *)
     done : list call                (* ghost: finished calls in the order they returned *)
   }.
@@ -79,10 +83,11 @@ Section Conc.
 
   Definition header (b : bytes) : bytes := be32 (size_of b).
 
-  (* [step with_mutex s (i, a)]: goroutine i performs a; None = not enabled *)
-  Definition step (with_mutex : bool) (s : state) (ia : nat * act) : option state :=
+  (* [step with_mutex fix_n1 s (i, a)]: goroutine i performs a; None = not enabled *)
+  Definition step (with_mutex fix_n1 : bool) (s : state) (ia : nat * act) : option state :=
     let (i, a) := ia in
     let t := thr s i in
+    let dead := fix_n1 && broken s in          (* every Write on a closed connection fails, 0 bytes *)
     match a, at_ t with
     | ALock, PIdle =>
         match todo t with
@@ -91,7 +96,7 @@ Section Conc.
             if with_mutex && (match holder s with Some _ => true | None => false end) then None
             else Some {| thr := upd (thr s) i {| todo := r; at_ := PLocked v |};
                          holder := if with_mutex then Some i else holder s;
-                         wire := wire s; tx := tx s;
+                         wire := wire s; tx := tx s; broken := broken s;
                          acq := acq s ++ [(i, v)]; done := done s |}
         end
     | AMarshal, PLocked v =>
@@ -100,53 +105,60 @@ Section Conc.
                  | None => PRet v [] 0 false
                  end in
         Some {| thr := set_pc s i p; holder := holder s; wire := wire s; tx := tx s;
-                acq := acq s; done := done s |}
+                broken := broken s; acq := acq s; done := done s |}
     | AHeader, PHeader v b =>
+        if dead then None else
         Some {| thr := set_pc s i (PBody v b 0 (header b)); holder := holder s;
-                wire := wire s ++ header b; tx := tx s; acq := acq s; done := done s |}
+                wire := wire s ++ header b; tx := tx s; broken := broken s;
+                acq := acq s; done := done s |}
     | AHeaderFail n, PHeader v b =>
-        (* binary.Write fails after n < 4 bytes: "return 0, err", no updateTx *)
-        if n <? 4 then
+        (* binary.Write fails after n < 4 bytes: "return 0, err", no updateTx;
+           fix_n1: Send then closes the connection *)
+        if (n <? 4) && (negb dead || (n =? 0)) then
           Some {| thr := set_pc s i (PRet v (takeN n (header b)) 0 false); holder := holder s;
-                  wire := wire s ++ takeN n (header b); tx := tx s; acq := acq s; done := done s |}
+                  wire := wire s ++ takeN n (header b); tx := tx s;
+                  broken := fix_n1 || broken s; acq := acq s; done := done s |}
         else None
     | AWrite n, PBody v b sent w =>
         let rest := dropN sent b in
-        if (sent <? size_of b) && (1 <=? n) && (n <=? lenN rest) then
+        if (sent <? size_of b) && (1 <=? n) && (n <=? lenN rest) && negb dead then
           Some {| thr := set_pc s i (PBody v b (sent + n) (w ++ takeN n rest)); holder := holder s;
-                  wire := wire s ++ takeN n rest; tx := tx s; acq := acq s; done := done s |}
+                  wire := wire s ++ takeN n rest; tx := tx s; broken := broken s;
+                  acq := acq s; done := done s |}
         else None
     | AWriteFail n, PBody v b sent w =>
         (* Write returns (n, err) with n < len(b[sent:]); n is NOT added to sent *)
         let rest := dropN sent b in
-        if (sent <? size_of b) && (n <? lenN rest) then
+        if (sent <? size_of b) && (n <? lenN rest) && (negb dead || (n =? 0)) then
           Some {| thr := set_pc s i (PRet v (w ++ takeN n rest) (4 + sent) false); holder := holder s;
-                  wire := wire s ++ takeN n rest; tx := tx s + (4 + sent); acq := acq s; done := done s |}
+                  wire := wire s ++ takeN n rest; tx := tx s + (4 + sent);
+                  broken := fix_n1 || broken s; acq := acq s; done := done s |}
         else None
     | AFinish, PBody v b sent w =>
         if sent <? size_of b then None
         else Some {| thr := set_pc s i (PRet v w (4 + sent) true); holder := holder s;
-                     wire := wire s; tx := tx s + (4 + sent); acq := acq s; done := done s |}
+                     wire := wire s; tx := tx s + (4 + sent); broken := broken s;
+                     acq := acq s; done := done s |}
     | AUnlock, PRet v w n ok =>
         Some {| thr := set_pc s i PIdle;
                 holder := if with_mutex then None else holder s;
-                wire := wire s; tx := tx s; acq := acq s;
+                wire := wire s; tx := tx s; broken := broken s; acq := acq s;
                 done := done s ++ [{| c_who := i; c_val := v; c_bytes := w; c_ret := n; c_ok := ok |}] |}
     | _, _ => None
     end.
 
-  Fixpoint run (with_mutex : bool) (sched : list (nat * act)) (s : state) : option state :=
+  Fixpoint run (with_mutex fix_n1 : bool) (sched : list (nat * act)) (s : state) : option state :=
     match sched with
     | [] => Some s
-    | ia :: r => match step with_mutex s ia with
-                 | Some s' => run with_mutex r s'
+    | ia :: r => match step with_mutex fix_n1 s ia with
+                 | Some s' => run with_mutex fix_n1 r s'
                  | None => None
                  end
     end.
 
   Definition init (progs : nat -> list V) : state :=
     {| thr := fun i => {| todo := progs i; at_ := PIdle |};
-       holder := None; wire := []; tx := 0; acq := []; done := [] |}.
+       holder := None; wire := []; tx := 0; broken := false; acq := []; done := [] |}.
 
   (* the schedule in which goroutine i runs one whole Send with a single Write
      of the body of lb bytes: what an uncontended call does *)
@@ -172,6 +184,7 @@ Arguments thr {V}.
 Arguments holder {V}.
 Arguments wire {V}.
 Arguments tx {V}.
+Arguments broken {V}.
 Arguments acq {V}.
 Arguments done {V}.
 Arguments step {V}.
